@@ -178,10 +178,18 @@ def run_check(spec, tier):
         try:
             with build.Lock():
                 build.build_go(log)
-                build.run_translator(log)
         except BuildError as e:
             harness_ok = False
             broken.append({"what": "build: " + e.stage, "log": e.log[-3000:]})
+        if harness_ok:
+            try:
+                with build.Lock():
+                    build.run_translator(log)
+            except BuildError as e:
+                # a fact could not be re-derived from the source (restructured code): the tie for it is broken;
+                # the last generated values are kept so that correspondence and monitors can still look for a failing input
+                log["t1_fallback"] = True
+                broken.append({"what": "translator could not re-derive the generated facts: " + e.stage, "log": e.log[-3000:]})
         if harness_ok:
             try:
                 with build.Lock():
